@@ -246,20 +246,39 @@ func (p *Policy) ClampScope(scope, source netip.Prefix) netip.Prefix {
 		bits = source.Bits()
 	}
 
+	// The audience is the subnet that was forwarded, not the ADDRESS the
+	// response echoes: RFC 7871 §7.3 requires the echo to match the
+	// query, and only the resolver's positive-answer path checks that.
+	// A negative answer or a forwarder's upstream that echoes another
+	// address filed the entry under somebody else's prefix, and an echo
+	// of the other family kept its address while its length was clamped
+	// by this family's source (a v6 /56 became a v6 /24, served to
+	// clients far outside the /56). Only the length is taken from the
+	// response, and only from an echo of the forwarded family.
+	addr := scope.Addr()
+	if source.IsValid() {
+		if addr.Is4() != source.Addr().Is4() {
+			// An echo of the other family: its length says nothing
+			// about the forwarded subnet either.
+			bits = source.Bits()
+		}
+		addr = source.Addr()
+	}
+
 	// bits is always in [0, 128] here — netip.Prefix.Bits() never
 	// returns negative — so the int→uint8 conversion below is safe.
 	switch {
-	case scope.Addr().Is4():
+	case addr.Is4():
 		if uint8(bits) > p.MinScopeV4 { //nolint:gosec // bits ≤ 32 for v4
 			bits = int(p.MinScopeV4)
 		}
-	case scope.Addr().Is6():
+	case addr.Is6():
 		if uint8(bits) > p.MinScopeV6 { //nolint:gosec // bits ≤ 128, fits uint8
 			bits = int(p.MinScopeV6)
 		}
 	}
 
-	clamped, err := scope.Addr().Prefix(bits)
+	clamped, err := addr.Prefix(bits)
 	if err != nil {
 		return scope
 	}
